@@ -471,6 +471,9 @@ pub struct BufModel {
     off: u64,
 }
 impl BufModel {
+    pub fn is_empty(&self) -> bool {
+        self.pend.is_empty()
+    }
     fn flush(&mut self, ops: &mut Vec<OsOp>) {
         if !self.pend.is_empty() {
             ops.push(OsOp::Write { file: self.file, off: self.off, data: std::mem::take(&mut self.pend) });
